@@ -456,7 +456,7 @@ class C19(Prop):
     pid = "C19"
     manifest = dict(
         technique='Lean 4 theorems over the operator / value_type / resource tables REGENERATED from c7n_to_cel.py on every run (decide over the whole table + soundness lemma for all operands), q/celstr/STRING_LIT round trip for all strings by induction, divmod-loop vs. DurationType grammar for all n; differential correspondence of emitted text (Lean valueToCel vs. real translator) and of decisions (Lean denotation vs. real parser+evaluator+c7nlib) plus an independent Python relation oracle',
-        text='proof: every atomic_op_map entry denotes the relation its op names (all operands), every value_type lambda yields Custodian\'s operands, q(s) lexes as one token and decodes to s for ALL strings, seconds/age durations denote n / d*86400 s for ALL n incl. 0, key literals recompose the key; every resource-table entry (bare and in the smallest clause of its rewriter) lexes and is accepted by the parser of the grammar model (decide +kernel over the regenerated tables), every emitted table text is also parsed by the real parser on every run; glob: literal / prefix / suffix / infix patterns and stem+class patterns accept exactly what they should for ALL texts (glob_literal, glob_prefix, glob_suffix, glob_infix, glob_stem_class); list values: celstr(repr(s)) = s for ALL strings and every set of non-printable characters (list_literal_decodes_partial)',
+        text='proof: every atomic_op_map entry denotes the relation its op names (all operands), every value_type lambda yields Custodian\'s operands, q(s) lexes as one token and decodes to s for ALL strings, seconds/age durations denote n / d*86400 s for ALL n incl. 0, key literals recompose the key; every resource-table entry (bare and in the smallest clause of its rewriter) lexes and is accepted by the parser of the grammar model (decide +kernel over the regenerated tables), every emitted table text is also parsed by the real parser on every run; glob: literal / prefix / suffix / infix patterns and stem+class patterns accept exactly what they should for ALL texts (glob_literal, glob_prefix, glob_suffix, glob_infix, glob_stem_class); list values: celstr(repr(s)) = s for ALL strings and every set of non-printable characters (list_literal_decodes_partial); intersect/difference decide membership only - repeats, order and lengths of the lists play no part (difference_membership, difference_same_members), a longer resource list is bound to match only when it has no repeated entry (difference_longer_nodup)',
         note='Lean kernel; propext/Quot.sound/Classical.choice only; source extractor gen_c19.py; the CEL evaluator on emitted TEXT is not modelled (lark, celpy evaluation, c7nlib functions compared by correspondence); Python float arithmetic in DurationType exact below 2^53',
         ref='DESIGN.md §5 C19, notes/C19.md')
     lean_targets = ["Cel.Props.C19", "Cel.Bridge.XlateTables"]
@@ -489,7 +489,9 @@ class C19(Prop):
             "[seq] / [!seq] / ranges at the start, middle, end, classes quoting a wildcard, unclosed [, regex-special characters) x texts "
             "built from the pattern (instances, instances with one piece violated, the pattern's own text, one character added at either "
             "end, empty); list values with elements over the whole adversarial alphabet (either/both quotes, backslash-escape look-alikes, "
-            "controls, C1, separators, combining, astral) x resource = each element / a neighbour / the whole list. non-trivial = a clause whose resource value is on the "
+            "controls, C1, separators, combining, astral) x resource = each element / a neighbour / the whole list; set relations (intersect, difference, in/ni, contains, size/unique_size) on every multiset shape: all lists of length 0..3 over a three-letter "
+            "alphabet plus longer ones (repeated entries, any order, shorter / as long / longer than the value list, members a subset / equal / "
+            "superset / disjoint) x value lists with and without repeats, str and int. non-trivial = a clause whose resource value is on the "
             "boundary (reference decision flips within the generated neighbourhood), a string containing a character q must "
             "escape, a count that is 0 or a multiple of a unit, any table entry")
 
